@@ -212,6 +212,11 @@ Verdict run(const Json::Value& sc) {
   std::string lastFireVictim;
   bool deferredThenFallbackFire = false, recreatedDuringWait = false;
   bool sawDeferred = false, failedAfterDeferred = false;
+  std::map<std::string, int> firedThisCycle; // victims (identity:path) -> hook fires in the current kill cycle
+  std::vector<Json::Value> killArgs; // arguments of the kill actions of the chain, in order
+  for (auto& a : rs["actions"])
+    if (a["name"].asString().compare(0, 8, "kill_by_") == 0) killArgs.push_back(a["args"]);
+  int cycleAction = 0;
   std::string forbidden; // victim that vanished / was re-created during its hook wait
   bool forbiddenActive = false;
   for (size_t i = 0; i < R.trace.size() && v.ok; i++) {
@@ -223,6 +228,9 @@ Verdict run(const Json::Value& sc) {
       continue;
     }
     if (e.k == "plugin" && e.s == "run") {
+      if (e.s2 == "pre0" || e.s2 == "mid0" || e.s2 == "after0") firedThisCycle.clear();
+      if (e.s2 == "pre0") cycleAction = 0;
+      if (e.s2 == "mid0") cycleAction = 1;
       if (e.s2 == "pre0") {
         chainFire = e.t_ms;
         deadline = chainFire + int64_t(timeout) * 1000;
@@ -251,6 +259,22 @@ Verdict run(const Json::Value& sc) {
       if (e.t_ms > deadline) v.fail("hook " + e.s2 + " fired after the prekill_hook_timeout window closed" + at);
       firesSinceAttempt++;
       if (firesSinceAttempt > 1 && lastFireVictim == e.p) v.fail("two hooks fired for victim '" + e.p + "'" + at);
+      // at most one hook per victim and kill cycle (a fallback fires for the NEXT victim)
+      {
+        // ... unless the configuration itself reaches the cgroup by several
+        // routes (overlapping targets such as "ab,ab/a" with recursion)
+        int fires = ++firedThisCycle[std::to_string(e.b) + ":" + e.p];
+        int routes = 1;
+        if (cycleAction < (int)killArgs.size() && e.tick >= 0 && e.tick < (int)R.worlds.size()) {
+          const Json::Value& ka = killArgs[cycleAction];
+          bool rec = ka.get("recursive", "false").asString() == "true";
+          routes = 0;
+          for (auto& t : vpm::resolveArg(R.worlds[e.tick], ka["cgroup"].asString()))
+            if (t == e.p || (rec && R.worlds[e.tick].isDescendantOrSelf(t, e.p))) routes++;
+          if (routes < 1) routes = 1;
+        }
+        if (fires > routes) v.fail("a prekill hook fired " + std::to_string(fires) + " times for victim '" + e.p + "' within one kill cycle" + at);
+      }
       if (sawDeferred && failedAfterDeferred) deferredThenFallbackFire = true;
       lastFireVictim = e.p;
       Live l;
